@@ -1,6 +1,6 @@
 //vp:property C16
 //vp:pkg ./tsdb
-//vp:roots ./tsdb/index ./model/labels ./storage github.com/bboreham/go-loser
+//vp:roots ./tsdb/index ./model/labels ./storage ./tsdb/chunks github.com/bboreham/go-loser
 //vp:bounds series selection by equality matchers (PostingsForMatchers with its intersecting / subtracting / label-must-be-set logic, postingsForMatcher, inversePostingsForMatcher, over the head's MemPostings): 3 series whose labels a and b each take a value from {absent, x, y} (case split), 1..2 matchers each of type = or != on label a or b with value "", x or y (case split); the selected references are exactly the series on which every matcher holds, an absent label counting as the empty string
 //vp:assume regular-expression matchers are outside (the regexp package is not encoded); label data concrete, the whole space of the case split is explored
 package tsdb
@@ -10,6 +10,7 @@ import (
 
 	"github.com/prometheus/prometheus/model/labels"
 	"github.com/prometheus/prometheus/storage"
+	"github.com/prometheus/prometheus/tsdb/chunks"
 	"github.com/prometheus/prometheus/tsdb/index"
 )
 
@@ -78,6 +79,84 @@ func vpH_C16_postings_for_matchers_eq() {
 			}
 		}
 		vpAssert(got[storage.SeriesRef(i+1)] == want, "a series is selected exactly when every matcher holds on it (absent label = empty string)")
+	}
+	vpReach("end")
+}
+
+// Label value / label name queries with matchers return exactly what the matching series carry.
+func vpH_C16_label_queries_with_matchers() {
+	vals := []string{"", "x", "y"}
+	h := &Head{postings: index.NewMemPostings()}
+	h.series = newStripeSeries(1, &noopSeriesLifecycleCallback{})
+	h.minTime.Store(0)
+	h.maxTime.Store(10)
+	type ser struct{ a, b string }
+	series := make([]ser, 3)
+	for i := range series {
+		series[i] = ser{vals[vpShape("a", 0, 2)], vals[vpShape("b", 0, 2)]}
+		kv := []string{"__name__", "m"}
+		if series[i].a != "" {
+			kv = append(kv, "a", series[i].a)
+		}
+		if series[i].b != "" {
+			kv = append(kv, "b", series[i].b)
+		}
+		lset := labels.FromStrings(kv...)
+		h.postings.Add(storage.SeriesRef(i+1), lset)
+		h.series.series[0][chunks.HeadSeriesRef(i+1)] = newMemSeries(lset, chunks.HeadSeriesRef(i+1), 0, true, false)
+	}
+	neg := vpShape("neg", 0, 1) == 1
+	mval := vals[vpShape("val", 0, 2)]
+	t := labels.MatchEqual
+	if neg {
+		t = labels.MatchNotEqual
+	}
+	m := labels.MustNewMatcher(t, "b", mval)
+	ir := &headIndexReader{head: h, mint: 0, maxt: 10}
+	got, err := ir.SortedLabelValues(context.Background(), "a", nil, m)
+	vpAssert(err == nil, "no error")
+	names, err := ir.LabelNames(context.Background(), m)
+	vpAssert(err == nil, "no error")
+	wantX, wantY, wantA, wantB, wantAny := false, false, false, false, false
+	for _, s := range series {
+		if (s.b == mval) == neg {
+			continue
+		}
+		wantAny = true
+		wantX = wantX || s.a == "x"
+		wantY = wantY || s.a == "y"
+		wantA = wantA || s.a != ""
+		wantB = wantB || s.b != ""
+	}
+	var want []string
+	if wantX {
+		want = append(want, "x")
+	}
+	if wantY {
+		want = append(want, "y")
+	}
+	vpObserve("n", len(got))
+	vpAssert(len(got) == len(want), "values of the label among the matching series, each once")
+	if len(got) == len(want) {
+		for i := range want {
+			vpAssert(got[i] == want[i], "sorted label values")
+		}
+	}
+	var wantNames []string
+	if wantAny {
+		wantNames = append(wantNames, "__name__")
+	}
+	if wantA {
+		wantNames = append(wantNames, "a")
+	}
+	if wantB {
+		wantNames = append(wantNames, "b")
+	}
+	vpAssert(len(names) == len(wantNames), "label names carried by the matching series, each once")
+	if len(names) == len(wantNames) {
+		for i := range wantNames {
+			vpAssert(names[i] == wantNames[i], "sorted label names")
+		}
 	}
 	vpReach("end")
 }
